@@ -105,11 +105,14 @@ CHECKS['C16'] = dict(
     text='Machine-checked: C16_append (for every older tree and target path: the operator hands over the very node found at the path with its elements followed by the new ones, '
          'in order, content unchanged, and detaches it), C16_append_missing / C16_append_nonlist (failure), C16_extend_fallback (nothing to extend: a plain list, older tree untouched), '
          'C16_prev (the entire previous subtree - the node get_node finds, not another element: what defect D14 violated - is moved), C16_detach_frame (detaching a mapping key removes '
-         'exactly that key). The premerge state-passing and the subsequent merge are tied by sampled correspondence on operator histories. Partial: the end-to-end statement '
-         '"result at p = L0 ++ L and every other path keeps its value" for whole builds is decided by the correspondence plus the scenario oracle; targets reached through a list index are '
-         'a recorded known finding (D15).',
+         'exactly that key). The premerge state-passing and the subsequent merge are tied by sampled correspondence on operator histories. END TO END: C16_append_end_to_end - for every tag-free config (any nesting, unique keys) '
+         'holding a list at a path q through mappings and every document that is a chain of one-entry mappings along q ending in !append L, the whole of root.merge(doc) (premerge: detach + '
+         'extend; then the merge, via the C02 refinement) succeeds with content app_at(config, q, L); C16_append_result_at_path (the value at q is the previous list followed by L, in order) and '
+         'C16_append_every_other_path_kept (every path that leaves the spine of q keeps its value; the list key moves to the end of its mapping); app_at is tied to Builder.build by correspondence '
+         '(content and key order). Partial: !extend / !prev end to end, several operators in one document and targets below tagged content are decided by the correspondence plus the scenario '
+         'oracle; targets reached through a list index are a recorded known finding (D15).',
     design='4 (C16), 6 (D14, D15)',
-    technique='Coq lemmas on remove_node / extend_node / on_premerge; sampled vm_compute correspondence of premerge+merge; scenario oracle (existing/missing/non-list targets, two operators, dotted keys) for replays')
+    technique='Coq lemmas on remove_node / extend_node / on_premerge and an end-to-end refinement theorem for !append; sampled vm_compute correspondence of premerge+merge; scenario oracle (existing/missing/non-list targets, two operators, dotted keys) for replays')
 
 CHECKS['C09'] = dict(
     text='Machine-checked: C09_alias (a !xref evaluates to the very same object - value and identity - recorded for the path at the end of its chain; both paths hold it; any tree, state, order), '
